@@ -1098,6 +1098,17 @@ class XPathN2S(Comp):
             L.append("xpk\tn2s\t" + hexs(s))
         return L
 
+    def witness(self, line, model_out, impl_out):
+        """sanitizer builds: the (long long) cast of a number outside its range (or of NaN / infinity) is undefined"""
+        if impl_out.startswith("CRASH("):
+            try:
+                v = float(unhex(line.split("\t")[2]).decode())
+            except ValueError:
+                return None
+            if v != v or abs(v) >= 2.0 ** 63:
+                return ("xpath-ub-float-cast", "lyxp_set_cast(number %r -> string): %s" % (v, impl_out))
+        return None
+
 
 # ------------------------------------------------------------------------------------------------
 # oracle: hash fast path == generic evaluation
@@ -1198,7 +1209,8 @@ class XPathSan:
         detail = "XPath %r, context %s: %s" % (unhex(f[5]).decode("utf-8", "replace"), f[4], out)
         if "set_sort(set)" in err and "Assertion" in err:
             return ("xpath-assert-unsorted-child-step", detail)
-        if "Assertion" in err and ("lyht_find(set->ht" in err or ("set_insert_node_hash" in err and "`!r'" in err)):
+        if "Assertion" in err and ("lyht_find(set->ht" in err or
+                                   (("set_insert_node_hash" in err or "set_remove_node_hash" in err) and "`!r'" in err)):
             if "( text )" in f[6]:
                 return ("xpath-assert-text-hash", detail)
             if " 1 attribute " in f[6]:
